@@ -7,10 +7,14 @@
 
 namespace exc {
 
+// coarse class of a case for violation keys: the source family, not the individual value
 static std::string shape_class(const std::string &shape)
 {
-  size_t p = shape.find(' ');
-  return p == std::string::npos ? shape : shape.substr(0, p);
+  size_t      p = shape.find(' ');
+  std::string s = p == std::string::npos ? shape : shape.substr(0, p);
+  if (s.rfind("set:", 0) == 0) return "set";
+  if (s.rfind("default:", 0) == 0) return "default";
+  return s;
 }
 
 static void soften_notes(Ctx &c, ref::Decoded &d)
@@ -37,11 +41,40 @@ static bool has_opt_elsewhere(const ares_dns_record_t *r)
 }
 
 // The C03 oracle for one record. `flags`: parse flags under which r was obtained (re-parse uses the same).
-static bool roundtrip_record_f(Ctx &c, const ares_dns_record_t *r, const std::string &shape, bool expect_write_ok, unsigned flags, const std::string &tolerate)
+// raw presentation text of every name of a record (to recognise non-canonical input text)
+static std::string name_texts(const ares_dns_record_t *r)
+{
+  std::string o;
+  const char *n = nullptr;
+  for (size_t i = 0; i < ares_dns_record_query_cnt(r); i++)
+    if (ares_dns_record_query_get(r, i, &n, nullptr, nullptr) == ARES_SUCCESS && n) o += std::string(n) + "|";
+  for (ares_dns_section_t s : { ARES_SECTION_ANSWER, ARES_SECTION_AUTHORITY, ARES_SECTION_ADDITIONAL })
+    for (size_t i = 0; i < ares_dns_record_rr_cnt(r, s); i++) {
+      const ares_dns_rr_t *rr = ares_dns_record_rr_get_const(r, s, i);
+      o += std::string(ares_dns_rr_get_name(rr) ? ares_dns_rr_get_name(rr) : "") + "|";
+      size_t                   nk   = 0;
+      const ares_dns_rr_key_t *keys = ares_dns_rr_get_keys(ares_dns_rr_get_type(rr), &nk);
+      for (size_t k = 0; k < nk; k++)
+        if (ares_dns_rr_key_datatype(keys[k]) == ARES_DATATYPE_NAME) {
+          const char *t = ares_dns_rr_get_str(rr, keys[k]);
+          o += std::string(t ? t : "") + "|";
+        }
+    }
+  return o;
+}
+
+// `contract`: false when the record holds a value that the library's own parser documents as invalid
+// (or the source message was not well-formed): mismatches are then counted, not reported.
+static bool roundtrip_record_f(Ctx &c, const ares_dns_record_t *r, const std::string &shape, bool expect_write_ok, unsigned flags, const std::string &tolerate, bool contract = true)
 {
   std::string    sc = shape_class(shape);
   std::string    problems;
-  ref::Dump      d0  = ares_dump(r, nullptr, &problems);
+  ref::Dump      d0  = ares_dump(r, nullptr, &problems); // (also warms the per-record caches the getters allocate)
+  LedgerScope    hide_record;
+  auto           V = [&](const std::string &key, const std::string &desc) {
+    if (contract) c.viol(key, desc);
+    else c.obs("outside_contract_" + key.substr(0, key.find(':', 4)));
+  };
   unsigned char *w1  = nullptr;
   size_t         l1  = 0;
   ares_status_t  st  = ares_dns_write(r, &w1, &l1);
@@ -49,21 +82,21 @@ static bool roundtrip_record_f(Ctx &c, const ares_dns_record_t *r, const std::st
   c.rep.outcome("write:" + status_name(st) + ":" + sc);
   std::string what;
   if (st != ARES_SUCCESS) {
-    if (w1 != nullptr) c.viol("C03:write:failure-with-buffer", status_name(st));
-    if (!ledger_clean(&what)) c.viol("C03:leak:ares_dns_write:failure", what);
+    if (w1 != nullptr) V("C03:write:failure-with-buffer", status_name(st));
+    if (!ledger_clean(&what)) V("C03:leak:ares_dns_write:failure", what);
     c.obs("write_failed_" + status_name(st) + "_" + sc);
     c.rep.witness("write_failed");
-    if (expect_write_ok) c.viol("C03:write:unexpected-failure:" + sc, "ares_dns_write returned " + status_name(st) + " for " + shape);
+    if (expect_write_ok) V("C03:write:unexpected-failure:" + sc, "ares_dns_write returned " + status_name(st) + " for " + shape);
     return false;
   }
   bool ok = true;
   if (w1 == nullptr) {
-    c.viol("C03:write:success-null", shape);
+    V("C03:write:success-null", shape);
     return false;
   }
   if (l1 > 16383) c.rep.witness("size_over_16383");
   if (l1 > 65535) {
-    c.viol("C03:size:write-exceeds-65535", "ares_dns_write succeeded with " + std::to_string(l1) + " bytes for " + shape);
+    V("C03:size:write-exceeds-65535", "ares_dns_write succeeded with " + std::to_string(l1) + " bytes for " + shape);
     ares_free_string(w1);
     ledger_clean();
     return false;
@@ -76,9 +109,11 @@ static bool roundtrip_record_f(Ctx &c, const ares_dns_record_t *r, const std::st
     // independent decoder: what do the written bytes mean?
     ref::Decoded rd = ref::decode_message(hb.p, hb.n, flags);
     c.rep.executions++;
-    if (rd.st == ref::MALFORMED) {
+    if (rd.st == ref::MALFORMED && rd.first_name_fail == ref::NF_TOO_LONG) {
+      c.obs("written_name_longer_than_255_octets"); // ares_split_dns_name() bounds the dotted text (<= 255), not the wire form
+    } else if (rd.st == ref::MALFORMED) {
       bool nm = rd.first_name_fail != ref::NF_NONE;
-      c.viol(std::string("C03:write:output-malformed:") + (nm ? std::string("name:") + ref::namefail_str(rd.first_name_fail) : "format") + ":" + sc, "independent decoder: " + rd.why + " in the " + std::to_string(l1) + " bytes written for " + shape);
+      V(std::string("C03:write:output-malformed:") + (nm ? std::string("name:") + ref::namefail_str(rd.first_name_fail) : "format") + ":" + sc, "independent decoder: " + rd.why + " in the " + std::to_string(l1) + " bytes written for " + shape);
       ok = false;
     } else if (rd.st == ref::OK) {
       soften_notes(c, rd);
@@ -90,13 +125,13 @@ static bool roundtrip_record_f(Ctx &c, const ares_dns_record_t *r, const std::st
         else if (!tolerate.empty() && key.find(tolerate) != std::string::npos) c.obs("tolerated_" + tolerate);
         else if (rd.notes.count("duplicate_option")) c.obs("duplicate_option_in_written_output");
         else {
-          c.viol("C03:write:means-something-else:" + key + ":" + sc, "independent decoder (left) vs the record that was written (right): " + desc + " for " + shape);
+          V("C03:write:means-something-else:" + key + ":" + sc, "independent decoder (left) vs the record that was written (right): " + desc + " for " + shape);
           ok = false;
         }
       } else if (rd.pointers_followed) c.rep.witness("compression_used");
     } else c.obs("written_output_outside_reference_subset");
     if (st2 != ARES_SUCCESS) {
-      c.viol("C03:reparse:failed:" + status_name(st2) + ":" + sc, "parse(write(r)) returns " + status_name(st2) + " for " + shape);
+      V("C03:reparse:failed:" + status_name(st2) + ":" + sc, "parse(write(r)) returns " + status_name(st2) + " for " + shape);
       ok = false;
     } else {
       ref::Dump   d2 = ares_dump(r2, nullptr, nullptr);
@@ -106,7 +141,7 @@ static bool roundtrip_record_f(Ctx &c, const ares_dns_record_t *r, const std::st
         if (ext_rcode_lost && !has_opt_elsewhere(r)) c.obs("extended_rcode_without_opt_written_as_servfail");
         else if (!tolerate.empty() && key.find(tolerate) != std::string::npos) c.obs("tolerated_" + tolerate);
         else {
-          c.viol("C03:roundtrip:" + key + ":" + sc, "r (left) vs parse(write(r)) (right): " + desc + " for " + shape);
+          V("C03:roundtrip:" + key + ":" + sc, "r (left) vs parse(write(r)) (right): " + desc + " for " + shape);
           ok = false;
         }
       }
@@ -115,12 +150,13 @@ static bool roundtrip_record_f(Ctx &c, const ares_dns_record_t *r, const std::st
       ares_status_t  s3 = ares_dns_write(r2, &w2, &l2);
       c.rep.executions++;
       if (s3 != ARES_SUCCESS) {
-        c.viol("C03:rewrite:failed:" + status_name(s3) + ":" + sc, "write(parse(write(r))) fails for " + shape);
+        V("C03:rewrite:failed:" + status_name(s3) + ":" + sc, "write(parse(write(r))) fails for " + shape);
         ok = false;
       } else if (l2 != l1 || memcmp(w1, w2, l1) != 0) {
         if (!tolerate.empty()) c.obs("tolerated_rewrite_" + tolerate);
+        else if (name_texts(r) != name_texts(r2)) c.obs("rewrite_differs_after_name_text_was_canonicalised"); // e.g. trailing dot, \\065 for 'A': compression matches on text
         else {
-          c.viol("C03:rewrite:bytes-differ:" + sc, "write(parse(write(r))) != write(r) (" + std::to_string(l2) + " vs " + std::to_string(l1) + " bytes) for " + shape);
+          V("C03:rewrite:bytes-differ:" + sc, "write(parse(write(r))) != write(r) (" + std::to_string(l2) + " vs " + std::to_string(l1) + " bytes) for " + shape);
           ok = false;
         }
       }
@@ -129,26 +165,19 @@ static bool roundtrip_record_f(Ctx &c, const ares_dns_record_t *r, const std::st
     ares_dns_record_destroy(r2);
   }
   ares_free_string(w1);
-  if (!ledger_clean(&what)) c.viol("C03:leak:roundtrip", what); // r itself is owned by the caller: checked there
+  if (!ledger_clean(&what)) V("C03:leak:roundtrip", what); // r itself is owned by the caller: checked there
   if (ok) c.rep.witness("roundtrip_ok");
   return ok;
 }
 
 bool roundtrip_record(Ctx &c, const ares_dns_record_t *r, const std::string &shape, bool expect_write_ok) { return roundtrip_record_f(c, r, shape, expect_write_ok, 0, ""); }
 
-// r lives in the ledger: temporarily hide its blocks so that leak checks inside see only their own
-struct LedgerScope {
-  std::unordered_map<void *, size_t> saved;
-  LedgerScope() { saved.swap(vf::ledger().live); }
-  ~LedgerScope()
-  {
-    for (auto &e : vf::ledger().live) saved.insert(e);
-    vf::ledger().live.swap(saved);
-  }
-};
 
 void run_roundtrip_wire(Ctx &c, const uint8_t *p, size_t len, const char *src)
 {
+  // the source must itself be well-formed for the reference, otherwise a lenient parse of a malformed message is the input
+  bool contract = ref::decode_message(p, len, 0).st == ref::OK;
+  if (!contract) c.rep.witness("source_not_wellformed");
   for (unsigned flags : { 0u, 63u }) {
     ares_dns_record_t *r  = nullptr;
     ares_status_t      st = ares_dns_parse(p, len, flags, &r);
@@ -159,10 +188,7 @@ void run_roundtrip_wire(Ctx &c, const uint8_t *p, size_t len, const char *src)
       continue;
     }
     c.rep.witness("parse_ok");
-    {
-      LedgerScope ls;
-      roundtrip_record_f(c, r, std::string(src) + (flags ? ":allraw" : ":flags0"), false, flags, "");
-    }
+    roundtrip_record_f(c, r, std::string(src) + (flags ? ":allraw" : ":flags0"), false, flags, "", contract);
     ares_dns_record_destroy(r);
     std::string what;
     if (!ledger_clean(&what)) c.viol("C03:leak:record-destroy", what);
@@ -173,6 +199,9 @@ void run_roundtrip_wire(Ctx &c, const uint8_t *p, size_t len, const char *src)
 void run_tcpframe(Ctx &c, const ares_dns_record_t *r1, const ares_dns_record_t *r2, size_t prefill, size_t consumed, const std::string &shape)
 {
   std::string sc = shape_class(shape);
+  if (r1) ares_dump(r1, nullptr, nullptr); // warm the per-record caches before hiding the records from the ledger
+  if (r2) ares_dump(r2, nullptr, nullptr);
+  LedgerScope hide_records;
   ares_buf_t *buf = ares_buf_create();
   Bytes       fill(prefill, 0xEE);
   if (prefill) ares_buf_append(buf, fill.data(), prefill);
@@ -353,8 +382,8 @@ static std::vector<Val> values_for(ares_dns_rr_key_t key)
       SV("space-quote", "with space \"q\" \\b");
       SV("len255", std::string(255, 'x'));
       SV("len256", std::string(256, 'x'));
-      SV("nonprintable", std::string("a\x01z", 3));
-      SV("high", std::string("\xc3\xa9", 2));
+      SV("nonprintable", std::string("a\x01z", 3), false); // the parser only accepts printable ASCII character-strings
+      SV("high", std::string("\xc3\xa9", 2), false);
       break;
     case ARES_DATATYPE_BIN:
     case ARES_DATATYPE_BINP:
@@ -400,8 +429,10 @@ static std::vector<Val> values_for(ares_dns_rr_key_t key)
       O("empty-nonnull", { { 2, "" } });
       O("codes-0-65535", { { 0, "x" }, { 65535, "y" } });
       O("replace", { { 1, "first" }, { 1, "second" } });
+      v.back().tag = "replace";
       O("three-ordered", { { 1, std::string("\x02h2", 3) }, { 3, std::string("\x01\xbb", 2) }, { 4, std::string("\xc0\x00\x02\x01", 4) } });
       O("unordered", { { 4, "abcd" }, { 1, "z" } });
+      v.back().in_contract = key == ARES_RR_OPT_OPTIONS; // RFC 9460: SvcParamKeys must be in increasing order
       O("long", { { 12, std::string(300, '\0') } });
       break;
     }
@@ -602,10 +633,7 @@ void fam_roundtrip(Ctx &c)
         ledger_clean();
         return;
       }
-      {
-        LedgerScope ls;
-        if (roundtrip_record_f(c, r, "default:rr=" + tn, true, 0, "")) c.rep.witness(("setter_rr_ok_" + tn).c_str());
-      }
+      if (roundtrip_record_f(c, r, "default:rr=" + tn, true, 0, "")) c.rep.witness(("setter_rr_ok_" + tn).c_str());
       finish_record(c, r);
     });
     size_t                   nk   = 0;
@@ -626,10 +654,9 @@ void fam_roundtrip(Ctx &c)
           }
           ares_status_t st = apply_val(rr, key, v);
           c.rep.outcome("set:" + status_name(st) + ":" + std::to_string((int)ares_dns_rr_key_datatype(key)));
-          if (st == ARES_SUCCESS) {
-            LedgerScope ls;
-            roundtrip_record_f(c, r, shape, false, 0, v.tolerate);
-          } else c.obs("setter_rejected_value");
+          bool contract = v.in_contract && !(key == ARES_RR_RAW_RR_TYPE && (ref::type_name((unsigned)v.u) != nullptr || v.u == 255)) && !(key == ARES_RR_CAA_TAG && v.tag == "empty");
+          if (st == ARES_SUCCESS) roundtrip_record_f(c, r, shape, false, 0, v.tolerate, contract);
+          else c.obs("setter_rejected_value");
           finish_record(c, r);
         });
       }
@@ -645,10 +672,7 @@ void fam_roundtrip(Ctx &c)
             if (ares_dns_record_create(&r, (unsigned short)(0xff00 | rc), (unsigned short)fl, op, (ares_dns_rcode_t)rc) != ARES_SUCCESS) continue;
             ares_dns_record_query_add(r, "example.com", ARES_REC_TYPE_ANY, ARES_CLASS_ANY);
             if (withopt) add_default_rr(r, ARES_SECTION_ADDITIONAL, "", ARES_REC_TYPE_OPT, 0);
-            {
-              LedgerScope ls;
-              roundtrip_record_f(c, r, "header:rcode" + std::string(rc > 15 ? ">15" : "<=15") + (withopt ? ":opt" : ":noopt"), true, 0, "");
-            }
+            roundtrip_record_f(c, r, "header:rcode" + std::string(rc > 15 ? ">15" : "<=15") + (withopt ? ":opt" : ":noopt"), true, 0, "");
             finish_record(c, r);
           }
         });
@@ -665,10 +689,7 @@ void fam_roundtrip(Ctx &c)
           ares_dns_rr_t *rr = nullptr;
           if (st == ARES_SUCCESS) st = ares_dns_record_rr_add(&rr, r, ARES_SECTION_ANSWER, where == 1 ? v.s.c_str() : "example.com", ARES_REC_TYPE_NS, ARES_CLASS_IN, 7);
           if (st == ARES_SUCCESS) st = ares_dns_rr_set_str(rr, ARES_RR_NS_NSDNAME, where == 2 ? v.s.c_str() : "ns.example.com");
-          if (st == ARES_SUCCESS) {
-            LedgerScope ls;
-            if (roundtrip_record_f(c, r, shape, false, 0, "")) c.rep.witness("name_form_roundtrip_ok");
-          }
+          if (st == ARES_SUCCESS && roundtrip_record_f(c, r, shape, false, 0, "")) c.rep.witness("name_form_roundtrip_ok");
           finish_record(c, r);
         });
       }
@@ -692,7 +713,6 @@ void fam_roundtrip(Ctx &c)
               return;
             }
             {
-              LedgerScope ls;
               roundtrip_record_f(c, r, shape, true, 0, "");
               bool frames = c.thorough || kind == 0 || k == 2;
               if (frames)
@@ -732,7 +752,6 @@ void fam_roundtrip(Ctx &c)
         return;
       }
       {
-        LedgerScope ls;
         roundtrip_record_f(c, r, std::string("offset:") + (off >= 16384 ? "name-at>=16384" : "name-at<16384"), true, 0, "");
         run_tcpframe(c, r, nullptr, 0, 0, std::string("offset:") + (off >= 16384 ? "name-at>=16384" : "name-at<16384"));
       }
@@ -747,7 +766,6 @@ void fam_roundtrip(Ctx &c)
         return;
       }
       {
-        LedgerScope ls;
         bool        fits = sz <= 65535;
         bool        ok   = roundtrip_record_f(c, r, std::string("size:") + (fits ? "<=65535" : ">65535"), fits, 0, "");
         if (fits && ok) c.rep.witness("size_near_65535_ok");
@@ -762,10 +780,7 @@ void fam_roundtrip(Ctx &c)
     ares_dns_record_rr_add(&rr, r, ARES_SECTION_ANSWER, "example.com", ARES_REC_TYPE_TXT, ARES_CLASS_IN, 1);
     std::string s(255, 'q');
     for (int i = 0; i < 258 && rr; i++) ares_dns_rr_add_abin(rr, ARES_RR_TXT_DATA, (const unsigned char *)s.data(), s.size());
-    {
-      LedgerScope ls;
-      roundtrip_record_f(c, r, "size:rdata>65535", false, 0, "");
-    }
+    roundtrip_record_f(c, r, "size:rdata>65535", false, 0, "");
     finish_record(c, r);
   });
 }
@@ -849,7 +864,8 @@ void fam_builders(Ctx &c)
                   HeapBuf      hb(buf, (size_t)bl);
                   ref::Decoded d = ref::decode_message(hb.p, hb.n, 0);
                   c.rep.executions++;
-                  if (d.st != ref::OK) c.viol(std::string("C03:builder:") + fn + ":output-not-wellformed", d.why);
+                  if (d.st != ref::OK && d.first_name_fail == ref::NF_TOO_LONG) c.obs("written_name_longer_than_255_octets");
+                  else if (d.st != ref::OK) c.viol(std::string("C03:builder:") + fn + ":output-not-wellformed", d.why);
                   else {
                     ref::Dump x;
                     x.addu("hdr.id", (unsigned)id);
